@@ -20,7 +20,7 @@ from harness.session import Session
 
 PROP = "C02"
 LEVEL = "exploration"
-TECHNIQUE = 'wire interlock automaton over emitted M-codes + reference 2-bit automaton stepped by accepted calls (predicts must-reject / may-reject / must-accept)'
+TECHNIQUE = 'wire interlock automaton over emitted M-codes + reference 2-bit automaton stepped by accepted calls (predicts must-reject / may-reject / must-accept); fault injection: a second output that fails with DeviceError'
 LEVEL_TEXT = 'Held on random full-API histories; every (tool, coolant) x guarded-operation pair is attempted (floors). Safety over unbounded histories: sampled, not proved.'
 RULE = ("random histories (40-60 calls) over tool_on/off, power_on/off, coolant_on/off, tool_change, "
         "halt (9 modes, with/without S/R), pause, stop, wait, emergency_halt interleaved with moves "
